@@ -44,8 +44,15 @@ def c15Model (i : C15H264.Input) : C15H264.Obs :=
   { panicked := false, after := ((run i.avc st i.frame).1).map Res.coarse,
     fresh := ((run i.avc [] i.frame).1).map Res.coarse }
 
-def c08Model (disable : Bool) (calls : List (UInt16 × Option Bytes)) : List PayObs :=
-  (payloadHist disable {} (calls.map (fun (m, b) => (m, b.getD [])))).map PayObs.ofFrags
+/-- `flags[k]` = DisableStapA during call k (missing flags count as false) -/
+def c08Hist (flags : List Bool) (calls : List (UInt16 × Option Bytes)) : List (Bool × UInt16 × Bytes) :=
+  match calls, flags with
+  | [], _ => []
+  | (m, b) :: cs, [] => (false, m, b.getD []) :: c08Hist [] cs
+  | (m, b) :: cs, f :: fs => (f, m, b.getD []) :: c08Hist fs cs
+
+def c08Model (flags : List Bool) (calls : List (UInt16 × Option Bytes)) : List PayObs :=
+  (payloadHist {} (c08Hist flags calls)).map PayObs.ofFrags
 
 def c09Calls (avc : Bool) : Bytes → List (Option Bytes) → List (C09.DepObs Bool)
   | _, [] => []
